@@ -1645,4 +1645,15 @@ theorem prefVector_ge_one (pref : Pref) (sq : Nat)
         | nil => exact absurd rfl hne
         | cons a as => rw [List.getLastD_cons]; exact List.getLastD_mem_cons ..
 
+theorem assignInit_eq_of_le (nmax pref : List Nat) (h : LeL pref nmax) : assignInit nmax pref = pref := by
+  induction pref generalizing nmax with
+  | nil => cases nmax <;> simp [assignInit]
+  | cons p ps ih =>
+    cases nmax with
+    | nil => simp [LeL] at h
+    | cons n ns =>
+      have := ih ns h.2
+      simp only [assignInit, List.zipWith_cons_cons] at this ⊢
+      rw [this, Nat.min_eq_right h.1]
+
 end Ska.MultiAnnot
